@@ -338,13 +338,18 @@ func synDefaultID(c *Ctx, d Driver, lt *core.Term) *core.Term {
 		return nil
 	}
 	rps, _ := core.ReturnPaths(c.P, g, 100)
+	var out *core.Term
 	for _, rp := range rps {
 		f1, s1 := atomTrue(rp.Atoms, func(t *core.Term) bool { return strings.HasSuffix(t.String(), ".ParisTracerouteMode") })
 		if f1 && !s1 {
-			return rp.Results[0]
+			if out != nil && out.String() != rp.Results[0].String() {
+				// the identifier depends on a further data-dependent branch: not one injective expression
+				return &core.Term{Op: "unknown", Name: "identifier differs between default-mode paths: " + out.String() + " vs " + rp.Results[0].String()}
+			}
+			out = rp.Results[0]
 		}
 	}
-	return nil
+	return out
 }
 
 // checkSerialize is R06.2.
@@ -577,14 +582,14 @@ func checkEngineSend(c *Ctx) {
 					switch x := in.(type) {
 					case *ssa.Call:
 						if cal := x.Common().StaticCallee(); cal != nil && cal.String() == "time.Sleep" {
-							if strings.Contains(argString(c, g, x, 0), ".SendDelay") {
+							if isSendDelayField(argString(c, g, x, 0)) {
 								pace[b] = true
 							}
 						}
 					case *ssa.UnOp:
 						if x.Op.String() == "<-" {
 							if cl, ok := c.P.Def(x.X).(*ssa.Call); ok && cl.Common().StaticCallee() != nil && cl.Common().StaticCallee().String() == "time.After" {
-								if strings.Contains(argString(c, g, cl, 0), ".SendDelay") && core.InstrDominates(cl, s) {
+								if isSendDelayField(argString(c, g, cl, 0)) && core.InstrDominates(cl, s) {
 									pace[b] = true
 								}
 							}
@@ -618,7 +623,7 @@ func checkEngineSend(c *Ctx) {
 					}
 				}
 			}
-			R.Check(len(pace) > 0 && !unpaced, "R06.5", e.Name+"#pacing", s.Pos(), gn, "every path from a send to the next iteration waits SendDelay", "a path from SendProbe to the next iteration does not wait for SendDelay: probes are not spaced")
+			R.Check(len(pace) > 0 && !unpaced, "R06.5", e.Name+"#pacing", s.Pos(), gn, "every path from a send to the next iteration waits the full SendDelay (fixed delay, not fixed rate)", "a path from SendProbe to the next iteration does not wait for exactly SendDelay (a Sleep / timer whose duration is the SendDelay parameter itself): after a slow send probes would be emitted back to back")
 		}
 		// stop after destination
 		checkStopOnDest(c, e)
@@ -849,4 +854,10 @@ func isExtractOfCallTo(v ssa.Value, f *ssa.Function) bool {
 	}
 	call, ok := ex.Tuple.(*ssa.Call)
 	return ok && call.Common().StaticCallee() == f
+}
+
+// isSendDelayField: the duration is the SendDelay parameter itself (a fixed delay after each send), not a
+// derived quantity such as "time until the k-th slot", which lets probes catch up after a slow send.
+func isSendDelayField(term string) bool {
+	return strings.HasSuffix(term, ".SendDelay") && !strings.ContainsAny(term, "(+-*/")
 }
